@@ -74,3 +74,16 @@ def pc_mutations(case, lo, kinds=None):
         elif m["expect"] == "accept" and r != "accept":
             fails.append("%s %s verifier does not accept harmless variation: %s -> %s" % (sch, opk, m["kind"], r))
     return fails
+
+
+def pc_refusals(case, lo):
+    """requests built to violate a degree/bound admission rule must not be served"""
+    fails = []
+    if case.kind != "pc" or "refuse" not in case.meta:
+        return fails
+    if lib_s(lo, "setup") == "ok" and lib_s(lo, "trim") == "ok" and lib_s(lo, "commit") == "ok":
+        r = case.meta["refuse"]
+        fails.append("%s commit served an out-of-domain request (%s, polynomial %d: degree %d, bound %s)"
+                     % (case.meta["scheme"], r["why"], r["poly"], len(case.fields["poly.%d" % r["poly"]]) - 1,
+                        case.fields["bound.%d" % r["poly"]][0]))
+    return fails
